@@ -170,6 +170,9 @@ static std::vector<CompDef> build_components()
   add("coordNum/pairlist", T_SCALAR, "coordNum {\n@OPTS@cutoff 3.5\ntolerance 0.01\npairListFrequency 2\n" + g12 + "}\n", {A, B3}, true, true)->self_hist = 1;
   add("selfCoordNum", T_SCALAR, "selfCoordNum {\n@OPTS@cutoff 3.2\ngroup1 {\n@G0@}\n}\n", {A4}, true, false);
   add("selfCoordNum/pairlist", T_SCALAR, "selfCoordNum {\n@OPTS@cutoff 3.2\ntolerance 0.01\npairListFrequency 2\ngroup1 {\n@G0@}\n}\n", {A4}, true, false)->self_hist = 1;
+  // the same two evaluated on a step that REBUILDS the list (no preceding step)
+  add("coordNum/pairlist-on-a-rebuild-step", T_SCALAR, "coordNum {\n@OPTS@cutoff 3.5\ntolerance 0.01\npairListFrequency 2\n" + g12 + "}\n", {A, B3}, true, true);
+  add("selfCoordNum/pairlist-on-a-rebuild-step", T_SCALAR, "selfCoordNum {\n@OPTS@cutoff 3.2\ntolerance 0.01\npairListFrequency 2\ngroup1 {\n@G0@}\n}\n", {A4}, true, false);
   add("groupCoord", T_SCALAR, "groupCoord {\n@OPTS@cutoff 3.5\n" + g12 + "}\n", {A, B3}, true, false);
   add("groupCoord/aniso", T_SCALAR, "groupCoord {\n@OPTS@cutoff3 ( 3.0 , 4.0 , 3.5 )\n" + g12 + "}\n", {A, B3}, true, false);
   add("angle", T_SCALAR, "angle {\n@OPTS@group1 {\n@G0@}\ngroup2 {\n@G1@}\ngroup3 {\n@G2@}\n}\n", {A, B, Cg}, true, true);
